@@ -365,9 +365,34 @@ def _import(I, args, kwargs):
     return SV(fresh_val("module"), PyObj)
 
 
+_sig_bind = amethod("Signature.bind", {"self": None, "*args": None, "**kw": None},
+                    doc="inspect (assumed): raises TypeError iff these arguments do not bind to the signature's parameters", result=ANYT,
+                    raises={"TypeError": lambda c, exc, **k: True}, exact_raises=True)
+SigAny = TAbs("inspect.Signature(any callable)", fields={}, methods={"bind": _sig_bind, "bind_partial": _sig_bind}, events=False)
+_sig_bind.params["self"] = SigAny
+
+
+def _inspect_signature(I, args, kwargs):
+    """inspect.signature(f) (assumed): the signature of f - or ValueError / TypeError, because many callables (built-in types and functions, C
+    extensions) have none that inspect can find.  A caller that asks for it on an ARBITRARY factory must expect that."""
+    from pyvc.ext_libs import fresh_abstract
+
+    ctx = I.ctx
+    ctx.ghost["nondet"] = True
+    d = ctx.choose(3, "inspect.signature")
+    if d == 1:
+        raise PyRaise(I.make_exception(ExternalRef("ValueError"), ["no signature found"]))
+    if d == 2:
+        raise PyRaise(I.make_exception(ExternalRef("TypeError"), ["not a callable object"]))
+    I.E.shared_types.setdefault(SigAny.name, SigAny)
+    return fresh_abstract(I, SigAny.name)
+
+
 def install(E):
     E.externals["builtins.__import__"] = _import
     E.externals["value:sys.modules"] = _sys_modules
+    E.externals.setdefault("inspect.signature", _inspect_signature)
+    E.shared_types.setdefault(SigAny.name, SigAny)
 
 
 def _mk_load_name(name):
